@@ -380,6 +380,29 @@ def relay_worlds():
                'f2.cellml': model([U('u0')], copy.deepcopy(cs)), 'f3.cellml': model([U('u0')], [C('c0', units=['u0'])])}
 
 
+def rho_worlds():
+    """cycles of local unit references that are entered from outside (the units the walk starts from is not on the cycle):
+    A imports a component (or a units) of B that uses units t0 -> … -> t(tail-1) -> k0 -> … -> k(n-1) -> k0; a second
+    branch into the cycle and an import hanging off the tail vary"""
+    for tail, n, top, second, hang in itertools.product((0, 1, 2), (1, 2, 3), ('comp', 'units'), (False, True), (False, True)):
+        names = ['t%d' % i for i in range(tail)] + ['k%d' % i for i in range(n)]
+        us = []
+        for i, nm in enumerate(names):
+            nxt = names[i + 1] if i + 1 < len(names) else 'k0'
+            kids = [nxt] + (['k%d' % (n - 1)] if second and i == 0 else []) + ([STD] if i % 2 else [])
+            us.append(U(nm, kids=kids))
+        if hang:
+            us.append(U('h', imp=('f2.cellml', 'u0')))
+        first = names[0]
+        if top == 'comp':
+            fa = model([], [C('x', imp=('f1.cellml', 'x'))])
+            fb = model(us, [C('x', units=[first] + (['h'] if hang else []))])
+        else:
+            fa = model([U('x', imp=('f1.cellml', 'x'))])
+            fb = model(us + [U('x', kids=[first] + (['h'] if hang else []))])
+        yield {'f0.cellml': fa, 'f1.cellml': fb, 'f2.cellml': model([U('u0')])}
+
+
 def random_world(rng, nfiles=None, cyclic=0.15):
     nfiles = nfiles or rng.randint(2, 5)
     files = ['f%d.cellml' % i for i in range(nfiles)]
